@@ -2,7 +2,8 @@
 //
 // Three streams:
 //  1. direct: generated tables through the six table writers (model.Table, docx, odt, xlsx,
-//     pptx, htmldoc ParsedTable.ToMarkdown); op = the writer's output vs the Lean render; oracle =
+//     pptx, htmldoc ParsedTable.ToMarkdown; htmldoc tables with colspan/rowspan: htmlspan.go);
+//     op = the writer's output vs the Lean render; oracle =
 //     the harness's own GFM reader (gfm.go) gives back rows x columns x cell text. Cells are any
 //     text: pipes, newlines, empty, and backslashes wherever they may stand (genCell, backslashCells,
 //     and exhaustively over a small alphabet in escapeSweep) — the cells of every other stream
@@ -172,23 +173,8 @@ func writeTable(w string, t [][]string) string {
 	panic("writer " + w)
 }
 
-// writeSpanTable sends a table with merged cells through the docx or odt writer.
+// writeSpanTable sends a table with merged cells through the docx or odt writer (htmldoc: htmlspan.go).
 func writeSpanTable(w string, t [][]Cell) string {
-	if w == "html" {
-		// what htmldoc.parseTable builds: one TableCell per <td>/<th> with its colspan; cells
-		// covered by a rowspan from above do not exist in HTML
-		pt := &htmldoc.ParsedTable{HasHeader: true}
-		for i, row := range t {
-			cells := []htmldoc.TableCell{}
-			for _, c := range row {
-				if !c.VCont {
-					cells = append(cells, htmldoc.TableCell{Text: c.Text, IsHeader: i == 0, RowSpan: 1, ColSpan: span(c)})
-				}
-			}
-			pt.Rows = append(pt.Rows, cells)
-		}
-		return pt.ToMarkdown()
-	}
 	if w == "docx" {
 		pt := &docx.ParsedTable{}
 		for _, row := range t {
@@ -560,7 +546,7 @@ func direct(c *hx.Ctx) {
 	for _, w := range tableWriters {
 		runPlainTable(c, w, [][]string{{"a\rb", "c\r\nd"}, {"\r", "x\r"}}, false)
 	}
-	for _, w := range []string{"docx", "odt", "html"} {
+	for _, w := range []string{"docx", "odt"} {
 		runSpanTable(c, w, [][]Cell{{{Text: "A", ColSpan: 2}, {Text: "B", ColSpan: 1}}, {{Text: "c", ColSpan: 1}, {Text: "d", ColSpan: 1}, {Text: "e", ColSpan: 1}}})
 		runSpanTable(c, w, [][]Cell{{{Text: "A", ColSpan: 1}, {Text: "B", ColSpan: 1}}, {{VCont: true, ColSpan: 1}, {Text: "x", ColSpan: 1}}})
 	}
@@ -576,6 +562,7 @@ func direct(c *hx.Ctx) {
 		}
 	}
 	escapeSweep(c)
+	htmlSpanTables(c)
 	n := c.N(400, 6000)
 	for i := 0; i < n; i++ {
 		r := c.Rng.Fork(uint64(1)<<40 | uint64(i))
@@ -608,7 +595,7 @@ func direct(c *hx.Ctx) {
 		c.Case(encTable(t), nontrivial)
 		if i%2 == 0 {
 			st := genSpanTable(r)
-			for _, w := range []string{"docx", "odt", "html"} {
+			for _, w := range []string{"docx", "odt"} {
 				runSpanTable(c, w, st)
 			}
 			c.Count("span-table")
@@ -633,7 +620,7 @@ func direct(c *hx.Ctx) {
 }
 
 func Run(c *hx.Ctx) {
-	c.Rep.Rule = "direct: random tables (1..14 rows x 1..12 cols; cells from an alphabet with '|', newline, spaces, empty, unicode, markdown punctuation and backslashes — about one cell in five carries one: in front of a pipe, of another backslash, of a newline, at the end of the cell, alone; regular-expression, path and LaTeX-like cells) through all six ToMarkdown writers; escape sweep: EVERY cell text over {backslash, pipe, letter, space} up to length 4 (thorough: plus newline, up to length 5), four per 2x2 table, through all six writers, docx/odt also with random ColSpan/vertical-merge cells; levels: the full box level -1..10 x offset -3..8 x max 0..7; documents: random block sequences (headings of every level the format expresses — DOCX 1..9 as built-in style / direct outlineLvl / custom style / derived style, ODT 1..10, HTML 1..6, PPTX titles —, paragraphs, nested lists depth<=3, tables with merges) written by independent DOCX/ODT/PPTX/HTML/XLSX writers under all Markdown options (metadata x TOC x offset -2..+7 x max 1..6, enumerated); heading sweep: per format files with a heading of every expressible level, each read under all 70 configurations (offset -2..+7 x max 0..6) through Reader.MarkdownWithRAGOptions, tabula.Open.ToMarkdownWithOptions and once through Reader.Markdown, Reader.MarkdownWithOptions, tabula.Open.ToMarkdown; head tables: the same random tables through model/docx/htmldoc ToMarkdown with 0..all leading rows marked as header rows (IsHeader / HasHeader as a thead, th-only rows, td-in-thead or a row-header column produce them), and in the documents as HTML thead/tbody/tfoot/bare tr with th or td, DOCX w:tblHeader, ODT table-header-rows(+table-rows), PPTX firstRow; heading texts drawn from a pool of 2-3 recurring titles in half of the documents; rag documents: model.Document (headings 1..6 as model.Heading or as heading-like paragraph listed in Layout.Headings, recurring titles adjacent and apart, paragraphs, lists depth<=3 of which a third start with a nested item, tables with header marks, page breaks) through rag.ChunkDocument(doc).ToMarkdownWithOptions under offset -2..+7 x max 1..6 x metadata x TOC x chunk separators x page numbers x chunk ids x document title; call histories: every generated document also through ONE Reader asked 4..7 times (Markdown / MarkdownWithOptions / MarkdownWithRAGOptions with offset -2..+7 x max 0..6 x metadata x TOC at random, repeats of an earlier configuration, Text() and Document() in between), the sweep files through one Reader under all 70 configurations in random order, every second rag document through one ChunkCollection rendered 3..5 times, each rendering checked under its own options; xlsx placement: three of five worksheet tables start below 1..9 blank rows and/or right of 1..6 blank columns (blank rows absent, empty <row> elements, or rows of value-less cells; optionally blank row/cells after the table); document model: every generated file and 150 (thorough 2500) arbitrary reader contents per format built through the VerifNewReader hooks (heading levels -2..12, list levels -1..5, numIds/styles with and without a numbering definition, empty and Markdown-like texts, empty/ragged/nil tables, header/footer texts equal to paragraphs, 0..4 slides with placeholders and notes, 0..3 sheets with ragged rows, empty-typed and merged cells and any MaxCol >= -1, slide/sheet selections with invalid indices, four HTML element lists per reader, all option flags, offset -3..8, max 0..7, metadata strings needing %q) through Markdown / MarkdownWithOptions / MarkdownWithRAGOptions (and tabula.Open.ToMarkdownWithOptions on files), 200 (3000) arbitrary chunk collections and lists through the chunk writers, each call tied to the Lean model; 300 (4000) line-soup documents plus every Markdown string seen through the harness reader vs the Lean reading spec; non-trivial = table containing '|', newline or backslash, document with a table/heading/list; distinct by canonical input"
+	c.Rep.Rule = "direct: random tables (1..14 rows x 1..12 cols; cells from an alphabet with '|', newline, spaces, empty, unicode, markdown punctuation and backslashes — about one cell in five carries one: in front of a pipe, of another backslash, of a newline, at the end of the cell, alone; regular-expression, path and LaTeX-like cells) through all six ToMarkdown writers; escape sweep: EVERY cell text over {backslash, pipe, letter, space} up to length 4 (thorough: plus newline, up to length 5), four per 2x2 table, through all six writers, docx/odt also with random ColSpan/vertical-merge cells; htmldoc tables with colspan/rowspan (htmlspan.go): 300 (thorough 4000) authored grids tiled with merged rectangles (1..9 rows x 1..8 columns, spelled as HTML does: the top-left cell carries the spans, covered positions have no cell, so rows all of whose cells are covered are rows without cells; short rows; a span of 1 written 1 or 0) whose expectation is the authored grid itself, half as many raw tables (0..4 cells per row, spans from -1, 0, 1..4, 1024, 1025, 2^31: overlapping cells, rowspans beyond the last row, spans that are not believed) of which every line must have the same number of cells and every row its texts in order, fixed witnesses, and the grid limit of 2^20 cells from both sides (thorough), each through ParsedTable.ToMarkdown and through the model table Document() builds; levels: the full box level -1..10 x offset -3..8 x max 0..7; documents: random block sequences (headings of every level the format expresses — DOCX 1..9 as built-in style / direct outlineLvl / custom style / derived style, ODT 1..10, HTML 1..6, PPTX titles —, paragraphs, nested lists depth<=3, tables with merges) written by independent DOCX/ODT/PPTX/HTML/XLSX writers under all Markdown options (metadata x TOC x offset -2..+7 x max 1..6, enumerated); heading sweep: per format files with a heading of every expressible level, each read under all 70 configurations (offset -2..+7 x max 0..6) through Reader.MarkdownWithRAGOptions, tabula.Open.ToMarkdownWithOptions and once through Reader.Markdown, Reader.MarkdownWithOptions, tabula.Open.ToMarkdown; head tables: the same random tables through model/docx/htmldoc ToMarkdown with 0..all leading rows marked as header rows (IsHeader / HasHeader as a thead, th-only rows, td-in-thead or a row-header column produce them), and in the documents as HTML thead/tbody/tfoot/bare tr with th or td, DOCX w:tblHeader, ODT table-header-rows(+table-rows), PPTX firstRow; heading texts drawn from a pool of 2-3 recurring titles in half of the documents; rag documents: model.Document (headings 1..6 as model.Heading or as heading-like paragraph listed in Layout.Headings, recurring titles adjacent and apart, paragraphs, lists depth<=3 of which a third start with a nested item, tables with header marks, page breaks) through rag.ChunkDocument(doc).ToMarkdownWithOptions under offset -2..+7 x max 1..6 x metadata x TOC x chunk separators x page numbers x chunk ids x document title; call histories: every generated document also through ONE Reader asked 4..7 times (Markdown / MarkdownWithOptions / MarkdownWithRAGOptions with offset -2..+7 x max 0..6 x metadata x TOC at random, repeats of an earlier configuration, Text() and Document() in between), the sweep files through one Reader under all 70 configurations in random order, every second rag document through one ChunkCollection rendered 3..5 times, each rendering checked under its own options; xlsx placement: three of five worksheet tables start below 1..9 blank rows and/or right of 1..6 blank columns (blank rows absent, empty <row> elements, or rows of value-less cells; optionally blank row/cells after the table); document model: every generated file and 150 (thorough 2500) arbitrary reader contents per format built through the VerifNewReader hooks (heading levels -2..12, list levels -1..5, numIds/styles with and without a numbering definition, empty and Markdown-like texts, empty/ragged/nil tables, header/footer texts equal to paragraphs, 0..4 slides with placeholders and notes, 0..3 sheets with ragged rows, empty-typed and merged cells and any MaxCol >= -1, slide/sheet selections with invalid indices, four HTML element lists per reader, all option flags, offset -3..8, max 0..7, metadata strings needing %q) through Markdown / MarkdownWithOptions / MarkdownWithRAGOptions (and tabula.Open.ToMarkdownWithOptions on files), 200 (3000) arbitrary chunk collections and lists through the chunk writers, each call tied to the Lean model; 300 (4000) line-soup documents plus every Markdown string seen through the harness reader vs the Lean reading spec; non-trivial = table containing '|', newline or backslash, document with a table/heading/list; distinct by canonical input"
 	direct(c)
 	levels(c)
 	documents(c)
@@ -690,6 +677,10 @@ func Replay(c *hx.Ctx, kase map[string]interface{}) {
 			t = append(t, cells)
 		}
 		runSpanTable(c, w, t)
+	case "htmlspan":
+		var k hspanCase
+		hx.Remarshal(kase, &k)
+		runHTMLSpanTable(c, k.Rows, k.Want, false)
 	case "level":
 		levels(c)
 	case "doc":
